@@ -22,6 +22,25 @@ Pinned ==
     <<195, 169>>, <<195, 169, 46, 103, 114>>, <<255>>, <<128, 46, 103, 114>>,          \* UTF-8 and stray high bytes
     [i \in 1..100 |-> 97] }                                                          \* a long identifier
 
+\* ---- valid multi-byte UTF-8 characters.  The sanitiser works on BYTES, so every one of these names is refused;
+\* an implementation that ranges over runes and narrows them to a byte would accept the first group.
+Utf8(cp) == IF cp < 128 THEN <<cp>>
+            ELSE IF cp < 2048 THEN <<192 + (cp \div 64), 128 + (cp % 64)>>
+            ELSE IF cp < 65536 THEN <<224 + (cp \div 4096), 128 + ((cp \div 64) % 64), 128 + (cp % 64)>>
+            ELSE <<240 + (cp \div 262144), 128 + ((cp \div 4096) % 64), 128 + ((cp \div 64) % 64), 128 + (cp % 64)>>
+CodePoints ==
+  { 321, 353, 304, 351, 378, 8257, 12354, 65345, 65601,    \* code point mod 256 is a letter, digit or '_': U+0141 U+0161 U+0130 U+015F U+017A U+2041 U+3042 U+FF41 U+10041
+    233, 8364, 256, 303, 302, 65295, 128512 }                \* mod 256 is not: U+00E9 U+20AC, U+0100 (NUL), U+012F ('/'), U+012E ('.'), U+FF0F, U+1F600
+NamesWith(u) == {u, u \o Gr, <<97>> \o u, u \o <<97>> \o Gr, u \o u}
+Utf8Names == UNION { NamesWith(Utf8(cp)) : cp \in CodePoints }
+ASSUME \A n \in Utf8Names : \E i \in 1..Len(n) : n[i] > 127
+
+\* ---- accepted names whose request fails in the operating system: targets that are directories in tree 2,
+\* and an identifier one byte too long for a file name (253 + ".gr" = 256 > NAME_MAX)
+FaultNames == { B("d"), B("d.gr"), B("e"), B("e.gr"), [i \in 1..253 |-> 97], [i \in 1..252 |-> 97] }
+
+AllPinned == Pinned \cup Utf8Names \cup FaultNames
+
 \* pinned names of the history runs
 PinnedSmall == { B("a.gr.gr"), B("../a"), B("/a.gr"), B("a.b"), B("A_0") }
 
